@@ -41,4 +41,3 @@ m = {
     "notes": "All checks: exit 0 held on what was observed, exit 1 + VIOLATION line, exit 2 + INCONCLUSIVE line when the deciding monitors observed too little. VERIF_SEED selects the workload. Known findings: /verif/known_findings.json.",
 }
 json.dump(m, open(os.path.join(VERIF, "MANIFEST.json"), "w"), indent=1)
-import jsonschema  # noqa
